@@ -24,7 +24,8 @@ EXPLANATION = (
     'decremented on both evolved and evolving_failed, with no other writer; '
     'R-C17.5 the evolutions announced for an evolution batch derive from the '
     'same batch entry as the SQL that is executed for it; '
-    'R-C17.5 also rejects labels aggregated over several batch entries (comprehension-bound task_info).')
+    'R-C17.5 also rejects labels aggregated over several batch entries (comprehension-bound task_info); '
+    'R-C17.6 nothing state-changing is reachable from evolve() before evolving.send(); R-C17.7 a generator-produced value is iterated at most once in run_sql unless materialised.')
 NOT_DECIDED = (
     'That the payload (evolutions, migrations, model names) equals exactly '
     'what was executed between the paired signals for every run.')
